@@ -48,6 +48,13 @@ def main(argv=None) -> int:
     seed = int(os.environ.get("VERIF_SEED") or 0)
     modname, rule, exhaustive = TABLE[pid]
     mod = importlib.import_module(f"harness.{modname}")
+    # global watchdog: code under test that dead-locks must end as a machinery failure, not as a check that never returns
+    import signal
+
+    def _too_long(signum, frame):
+        raise MachineryError(f"check {pid} exceeded its time budget (VERIF_CHECK_TIMEOUT); the code under test may be dead-locked")
+    signal.signal(signal.SIGALRM, _too_long)
+    signal.alarm(int(os.environ.get("VERIF_CHECK_TIMEOUT") or (4 * 3600 if a.tier == "thorough" else 3600)))
     chk = Check(pid, a.tier, seed, level=("exploration" if pid == "C06" else "model_checking"))
     from . import tlc as _tlc
     _tlc.COVERAGE = (a.tier == "thorough")
